@@ -328,7 +328,7 @@ def register_vector_algebra(reg):
 
     # ---------------------------------------------------------------- norm / normalized / distanceTo
     def post_norm(I, env, res, check):
-        G.use(I.eng, "hypot", "hypot.square")
+        G.hyp_hints(I.eng, res)
         a = co(env.vars["self"])
         check("length_is_nonnegative", rz(res) >= 0)
         check("euclidean_length_squared", sq(rz(res)) == norm2(a))
@@ -342,7 +342,7 @@ def register_vector_algebra(reg):
     _vec_contract(reg, "norm", dict(self=VT()), post_norm, replay_norm)
 
     def post_normalized(I, env, res, check):
-        G.use(I.eng, "hypot", "hypot.square")
+        G.use(I.eng, "hypot")
         a, r = co(env.vars["self"]), co(res)
         zero = z3.And(*[x == 0 for x in a])
         check("zero_stays_zero", z3.Implies(zero, eq3(r, (0, 0, 0))))
@@ -363,7 +363,7 @@ def register_vector_algebra(reg):
     _vec_contract(reg, "normalized", dict(self=VT()), post_normalized, replay_normalized)
 
     def post_dist(I, env, res, check):
-        G.use(I.eng, "hypot", "hypot.square")
+        G.hyp_hints(I.eng, res)
         a, b = co(env.vars["self"]), co(env.vars["other"])
         check("distance_is_nonnegative", rz(res) >= 0)
         check("euclidean_distance_squared", sq(rz(res)) == norm2([y - x for x, y in zip(a, b)]))
@@ -566,7 +566,8 @@ def register_vector_algebra(reg):
     _vec_contract(reg, "angleWith", dict(self=VT(), other=VT()), post_angle_with, replay_angle_with)
 
     def post_spherical(I, env, res, check):
-        G.use(I.eng, "hypot", "hypot.square")
+        G.use(I.eng, "hypot")
+        G.hyp_hints(I.eng, co(res)[0])
         G.use(I.eng, "atan2")
         a, r = co(env.vars["self"]), co(res)
         h = G.hyp_term(I.eng, [a[0], a[1]])
@@ -1712,7 +1713,7 @@ def register_frames(reg):
         return setup
 
     def post_distance(I, env, res, chk):
-        G.use(I.eng, "hypot", "hypot.square")
+        G.hyp_hints(I.eng, res)
         a, b = co(env.vars["_a"]), co(env.vars["_b"])
         chk("distance_is_nonnegative", rz(res) >= 0)
         chk("euclidean_distance_squared", sq(rz(res)) == norm2([x - y for x, y in zip(a, b)]))
